@@ -94,7 +94,7 @@ func (v *IndexVamana) removeInboundEdges(deleteSet map[uint64]struct{}) error {
 	if err != nil {
 		return fmt.Errorf("could not scan edges: %w", err)
 	}
-	verifEdgeScan(toPrune, toSave)
+	v.verifEdgeScan(toPrune, toSave)
 	v.logger.Debug().Int("deleteSetSize", len(deleteSet)).Int("toPruneSize", len(toPrune)).Int("toSaveSize", len(toSave)).Str("duration", time.Since(startTime).String()).Msg("EdgeScan")
 	// ---------------------------
 	startTime = time.Now()
